@@ -1104,6 +1104,20 @@ pub fn execute(plan: &Plan, obs: &mut Obs) -> Result<(), Fail> {
         fx,
         model: Model::new(&plan.setup),
     }];
+    if mk[0].model.ccys.len() > 12 {
+        obs.count("reach.market_larger_than_12_currencies");
+    }
+    if plan.setup.share_vars {
+        obs.count("reach.quotes_with_pointer_shared_variable_lists");
+    }
+    if plan
+        .setup
+        .quotes
+        .iter()
+        .any(|q| q.tod.is_some() || q.settle.map(|d| !(10957..=22000).contains(&d)).unwrap_or(false))
+    {
+        obs.count("reach.unusual_settlement_datetime");
+    }
     probe(&mk[0], "init", 0, obs)?;
     let mut refusals_since_success = 0u64;
     let mut order_changed_since_update = false;
@@ -1189,6 +1203,27 @@ pub fn execute(plan: &Plan, obs: &mut Obs) -> Result<(), Fail> {
                 let r = call(P, "FXRates::update", || mk[ti].fx.update(rs_items))?;
                 match (expect, r) {
                     (Expect::Accept(qs), Ok(())) => {
+                        // reach probes for the rarer kinds of update
+                        if items.is_empty() {
+                            obs.count("reach.empty_update");
+                        }
+                        if items.iter().any(|it| {
+                            mk[ti].model.quotes.iter().any(|q| {
+                                q.lhs == it.lhs
+                                    && q.rhs == it.rhs
+                                    && q.num.value().to_bits() == it.num.value().to_bits()
+                                    && q.num != it.num
+                            })
+                        }) {
+                            obs.count("reach.remark_at_same_level_with_other_kind");
+                        }
+                        if !items.is_empty()
+                            && items.len() == mk[ti].model.quotes.len()
+                            && (items[0].settle != mk[ti].model.quotes[0].settle
+                                || items[0].tod != mk[ti].model.quotes[0].tod)
+                        {
+                            obs.count("reach.whole_market_redated");
+                        }
                         mk[ti].model.quotes = qs;
                         mk[ti].model.explicit_order = None;
                         obs.count("op.update.accepted");
@@ -1527,7 +1562,7 @@ impl Scenario for C10 {
         "FXRates history".into()
     }
     fn rule() -> String {
-        "one evaluation = one seeded history (setup market of 2..12 currencies as a random/chain/star tree with float, Dual and Dual2 quotes; then 4..26 steps of update / set_ad_order / refused update (unknown pair, late settlement failure) / clone-to-replica) executed against the real FXRates with a full n^2 probe (value, names, gradient, Hessian vs closed form and reference AD) after every step. Distinct = distinct plan digest; non-trivial = the history contains an order change and at least two updates.".into()
+        "one evaluation = one seeded history (setup market of 2..12 currencies (2 % of markets 13..24) as a random/chain/star tree with float, Dual and Dual2 quotes, round and coinciding values, optionally pointer-shared variable lists, settlement datetimes over years 1..9999; then 4..26 steps (1 % of small markets 60..200) of update (incl. same-level re-marks with another number kind, whole-market re-dating, empty) / set_ad_order / refused update (unknown pair, late settlement failure) / clone-to-replica) executed against the real FXRates with a full n^2 probe (value, names, gradient, Hessian vs closed form and reference AD) after every step. Distinct = distinct plan digest; non-trivial = the history contains an order change and at least two updates.".into()
     }
     fn assumptions() -> Vec<String> {
         vec![
